@@ -12,6 +12,7 @@
   R<n> v…                  a row;  TB<m> row…  a table (first row = header)
 -/
 import Petl.Val
+import Petl.Fields
 namespace Petl
 
 abbrev P := StateT (List String) (Except String)
@@ -153,6 +154,31 @@ def pOptInt : P (Option Int) := do
   | some n => pure (some n)
   | none => P.fail s!"expected int or -, got {t}"
 
+/-- key / field spec: `KN` = None, `K<n>` followed by n items `#<i>` (index) or a text token (name) -/
+def pFSpec : P FSpec := do
+  let t ← tok
+  if t.front == '#' then
+    match (t.drop 1).toString.toNat? with
+    | some i => pure (.idx i)
+    | none => P.fail s!"bad index spec {t}"
+  else if t.front == 'S' then
+    match parseCps (t.drop 1).toString with
+    | some l => pure (.name l)
+    | none => P.fail s!"bad name spec {t}"
+  else P.fail s!"bad field spec {t}"
+
+def pKey : P (Option (List FSpec)) := do
+  let t ← tok
+  if t == "KN" then pure none else
+  if t.front != 'K' then P.fail s!"expected key, got {t}" else
+  match (t.drop 1).toString.toNat? with
+  | some n =>
+    let mut xs : Array FSpec := #[]
+    for _ in [0:n] do
+      xs := xs.push (← pFSpec)
+    pure (some xs.toList)
+  | none => P.fail s!"bad key {t}"
+
 /-! printing -/
 
 def showCps (l : List Nat) : String := ".".intercalate (l.map toString)
@@ -176,6 +202,11 @@ def showRow (r : Row) : String :=
 
 def showTable (t : Table) : String :=
   " ".intercalate (s!"TB{t.length}" :: t.map showRow)
+
+def showOut (o : Out) : String :=
+  match o.err with
+  | none => showTable o.rows
+  | some e => showTable o.rows ++ " ERR " ++ e.code
 
 def showBool (b : Bool) : String := if b then "1" else "0"
 
